@@ -42,16 +42,28 @@ fn main() {
         i += 1;
     }
     common::panics::install_hook();
-    let code = match id.as_str() {
-        "C01" => checks::c01::main(tier, replay),
-        "C03" => checks::c03::main(tier, replay),
-        "C07" => checks::c07::main(tier, replay),
-        "C08" => checks::c08::main(tier, replay),
-        _ => {
-            eprintln!("unknown property {}", id);
+    let code = match common::panics::catch(|| run(&id, tier, replay)) {
+        Ok(c) => c,
+        Err(p) => {
+            eprintln!("machinery failure: harness panicked at {}: {}", p.location, p.message);
             2
         }
     };
     common::worlds::cleanup_work_dir();
     std::process::exit(code);
+}
+
+fn run(id: &str, tier: Tier, replay: Option<String>) -> i32 {
+    match id {
+        "C01" => checks::c01::main(tier, replay),
+        "C02" => checks::c02::main(tier, replay),
+        "C03" => checks::c03::main(tier, replay),
+        "C07" => checks::c07::main(tier, replay),
+        "C08" => checks::c08::main(tier, replay),
+        "C13" => checks::c13::main(tier, replay),
+        _ => {
+            eprintln!("unknown property {}", id);
+            2
+        }
+    }
 }
